@@ -484,6 +484,19 @@ S(id="E.set.add_initial", props=["C12"], spec="earley.spec.c", harness="h_add_in
   what="Earley core primitive: a non-start situation is appended to the situation array unless it is already among the non-start situations (search loop closed by its contract); on "
        "append the array grows by one element holding it, the rest stays (ghost byte), new_sits and the core's sits pointer are refreshed; otherwise nothing changes",
   assumes=["array size capped by NCAP elements (object size only)", "the segment contract is the one proved by OS.expand, restated with a ghost byte"])
+S(id="E.set.add_nonstart", props=["C12"], spec="earley.spec.c", harness="h_add_nonstart", mode="U", loops=True, n_loops=1, canaries=2, enforce=["set_add_new_nonstart_sit/add_nonstart_c"],
+  replace=["_OS_expand_memory/os_expand_three_c"], functions=["set_add_new_nonstart_sit"], params={"quick": {"CAP": 8, "NCAP": 3}, "thorough": {"CAP": 16, "NCAP": 3}}, mem=32, timeout=1500,
+  bound="<= 2 situations in the set before the call (with at most 2 start situations the biased pointer stays inside the segment; see E.set.add_nonstart.bias for F34)",
+  what="Earley core primitive: a (situation, parent index) pair is appended to the non-start part of the set being formed unless the search loop (closed by its contract) finds it; on append "
+       "the situation array and the parent-index array (which has no entries for start situations and is addressed through a pointer biased by their number) both grow by one element "
+       "holding the pair, the rest stays (ghost bytes), all pointers are refreshed, n_sits and n_all_dists stay equal; otherwise nothing changes",
+  assumes=["call-site precondition n_all_dists == n_sits (add_derived_nonstart_sits runs before any initial situation is added: read, not proved)",
+           "array size capped by NCAP elements (object size only)", "the segment contract is the one proved by OS.expand, restated with ghost bytes"])
+S(id="E.set.add_nonstart.bias", props=["C12"], spec="earley.spec.c", harness="h_add_nonstart", mode="U", loops=True, n_loops=1, canaries=2, enforce=["set_add_new_nonstart_sit/add_nonstart_c"],
+  replace=["_OS_expand_memory/os_expand_three_c"], functions=["set_add_new_nonstart_sit"], params={"quick": {"CAP": 16, "NCAP": 6}, "thorough": {"CAP": 16, "NCAP": 6}}, mem=32, timeout=1500, tier="thorough",
+  what="the same contract with up to 5 start situations: the parent-index pointer biased by -n_start_sits is then formed BEFORE the start of the segment block when the top object begins "
+       "closer to it than that (F34); the verifier reports the accesses through that pointer, everything else is discharged",
+  assumes=["as E.set.add_nonstart"])
 S(id="T.rule.add", props=["C12", "C10"], spec="symtab.spec.c", harness="h_rule_add", mode="L", canaries=2, enforce=["rule_new_symb_add/rule_add_c"],
   replace=["_OS_expand_memory/os_expand_keep_c"], functions=["rule_new_symb_add"], params={"quick": {"CAP": 8, "RCAP": 3}, "thorough": {"CAP": 8, "RCAP": 3}}, mem=32, timeout=1500, tier="thorough",
   bound="the open array holds <= 3 symbols before the call; the function has no loop (thorough tier only: 5 minutes)",
